@@ -145,6 +145,9 @@ def PC.isWaitPt : PC → Bool
   | .at p => p.isWait
   | _ => false
 
+theorem pollPoint_notWait (sl : Sel) (i : Nat) (cs : Case) : (pollPoint sl i cs).isWait = false := by
+  unfold pollPoint; split <;> (try split) <;> rfl
+
 theorem startOps_notWaitPt (th : Thread) (ops : List Op) : (startOps th ops).pc.isWaitPt = false := by
   induction ops generalizing th with
   | nil => rfl
@@ -155,19 +158,15 @@ theorem startOps_notWaitPt (th : Thread) (ops : List Op) : (startOps th ops).pc.
     | close c' => rfl
     | select cases blocking =>
       cases blocking with
-      | true => cases cases <;> rfl
+      | true => simp only [startOps]; split <;> rfl
       | false =>
-        cases cases with
-        | nil => simp only [startOps]; exact ih _
-        | cons cs r =>
-          simp only [startOps, pollPoint]
-          split <;> (try split) <;> rfl
+        simp only [startOps]
+        split
+        · exact ih _
+        · exact pollPoint_notWait _ _ _
 
 theorem finishOp_notWaitPt (th : Thread) (r : Res) : (finishOp th r).pc.isWaitPt = false :=
   startOps_notWaitPt _ _
-
-theorem pollPoint_notWait (sl : Sel) (i : Nat) (cs : Case) : (pollPoint sl i cs).isWait = false := by
-  unfold pollPoint; split <;> (try split) <;> rfl
 
 theorem pollFrom_notWaitPt (th : Thread) (sl : Sel) (pass i : Nat) : (pollFrom th sl pass i).pc.isWaitPt = false := by
   unfold pollFrom
